@@ -18,7 +18,7 @@ CHECK = "fun c => (corr T (fst c) (snd c), true)"
 MODEL_VIEW = "fun c => model_obs T (fst c)"
 THEOREMS: list[str] = []
 PROOF_HEADER = "From A816 Require Import Oracle.Asmo."
-RULE = ("generated programs (all statement kinds, nested blocks/scopes/macros/loops/conditionals, *= and @= moves, "
+RULE = ("generated programs (instructions, data, .ascii, labels, symbols, .incbin, .include, nested blocks/scopes/macros/loops/conditionals, *= and @= moves, "
         "LoROM/HiROM) parsed by the real parser; model and implementation must agree on writer calls, labels and "
         "accept/reject; non-trivial = the program assembles and emits at least one byte; distinct by source text")
 PROVED_NOTE = "model tie only (no property theorem attached to this module)"
@@ -30,9 +30,14 @@ ROM_CODE = {"low": "LowRom", "low2": "LowRom2", "high": "HighRom"}
 
 def gen_case(rng, rom=None, features=None, n_stmts=None):
     rom = rom if rom is not None else rng.choice(["low", "low", "low", "high", "low2"])
+    if features is None:
+        features = {"blocks", "scopes", "macros", "if", "for", "reloc", "data", "ascii", "symbols", "files"}
     g = progen.Gen(rng, rom=rom, features=features)
     tree = g.program(n_stmts)
-    return {"kind": "prog", "rom": rom, "src": progen.render(tree) + "\n", "tree_kinds": progen.count_kinds(tree)}
+    c = {"kind": "prog", "rom": rom, "src": progen.render(tree) + "\n", "tree_kinds": progen.count_kinds(tree)}
+    if g.files:
+        c["files"] = dict(g.files)
+    return c
 
 
 def cases(ctx):
